@@ -134,7 +134,7 @@ func prefixOf(d digest.Digest) (p [8]byte) {
 func accessEngine(w *run.Worker) {
 	ctx := context.Background()
 	w.Cases("access", w.N(1500, 40000), func(c *run.Case) {
-		r := caseRng(w, c)
+		r := c.Rng
 		n := r.Pick(1, 2, 2, 3, 3, 4, 5, 6, 8, 12)
 		base := genMap(r, n, r.Pick(0, 2, 3, 4, 5, 6), nil)
 		fp := mapFingerprint(base)
